@@ -244,7 +244,7 @@ func interleavings(a, b []int) [][]int {
 }
 
 func runC10(r *ev.Run) {
-	r.Rule = "the harness is the inner transport: 2-4 real sender instances (fragswarm, mbapp) tell messages of 1, 2, 3 and many fragments (exact multiples of the fragment size +-1); every captured fragment is labelled; a fresh real destination instance per schedule is fed an interleaving of the fragments of several messages and sources: enumerated (two messages of <=3 fragments: all interleavings x drop-one x duplicate-one) and random (all messages shuffled with loss and duplication), with seeded delays at the reassembly hook points; every delivered payload must equal one sent payload of the sender Src names, and a message with a never-fed fragment must not be delivered. Part-count sweep: one message per part count 1..33, fed whole (in order, reversed), with one fragment missing, and one fragment alone. Largest message: MTU()-1, MTU() and MTU()+1 bytes over 1-, 2- or 4-byte parts (the part count at the limit of its header field), fed in order: delivered as told or refused. Also multi-part ask responses under reordering, and a request and a reply from the same peer sharing one group id. non-trivial = fragments of >=2 messages interleaved and >=1 message completed; distinct = interleaving-shape hash"
+	r.Rule = "the harness is the inner transport: 2-4 real sender instances (fragswarm, mbapp) tell messages of 1, 2, 3 and many fragments (exact multiples of the fragment size +-1); every captured fragment is labelled; a fresh real destination instance per schedule is fed an interleaving of the fragments of several messages and sources: enumerated (two messages of <=3 fragments: all interleavings x drop-one x duplicate-one) and random (all messages shuffled with loss and duplication), with seeded delays at the reassembly hook points; every delivered payload must equal one sent payload of the sender Src names, and a message with a never-fed fragment must not be delivered. Part-count sweep: one message per part count 1..33, fed whole (in order, reversed), with one fragment missing, and one fragment alone. Largest message: MTU()-1, MTU() and MTU()+1 bytes over 1-, 2- or 4-byte parts (the part count at the limit of its header field), fed in order: delivered as told or refused. Concurrent tells: six goroutines of one sender instance tell eight multi-part messages each (equal part counts) to one destination at once, what was emitted is fed in emission order to a fresh destination: every delivered payload must be one told. Also multi-part ask responses under reordering, and a request and a reply from the same peer sharing one group id. non-trivial = fragments of >=2 messages interleaved and >=1 message completed; distinct = interleaving-shape hash"
 	g := rng.New(r.Seed, "C10", fmt.Sprint(r.Batch))
 	idx := 0
 	for li, layer := range c10Layers() {
@@ -347,6 +347,9 @@ func runC10(r *ev.Run) {
 			verifhook.DisarmAll()
 			c10PartCountSweep(r, cg, caseID, layer, innerMTU)
 			c10FailedTell(r, cg, caseID, layer, innerMTU)
+			for rep := 0; rep < pick(r, 3, 12); rep++ {
+				c10ConcurrentTells(r, cg.Fork(), caseID, layer, innerMTU)
+			}
 			if layer.name == "mbapp" {
 				c10AskReplies(r, cg, caseID, innerMTU)
 			}
